@@ -2288,8 +2288,8 @@ def drop_guards_of_the_lookup_that_follows(trees, inv):
         for scope, owner, fn in list(scopes(t)):
             n = 0
             q = (scope + "." if scope else "") + fn.name
-            if q in inv.get("functions", {}).get(mod, {}):
-                continue        # a function the inventory knows keeps its guards (the rules read them there)
+            if "N:KeyError" in inv.get("functions", {}).get(mod, {}).get(q, ()):
+                continue        # a function that raised KeyError itself in the inventory keeps its guards (the rules read them there)
             for blk_owner in list(ast.walk(fn)):
                 for fld in ("body", "orelse", "finalbody"):
                     blk = getattr(blk_owner, fld, None)
